@@ -197,7 +197,7 @@ def call_site_styles(S):
     return out
 
 
-def explore(S, K, want=('C04', 'C05', 'C06'), cats=None, between_items=False):
+def explore(S, K, want=('C04', 'C05', 'C06'), cats=None, between_items=False, focus_last=False):
     kt = T.KT
     core = S.core
     f_new = S.find_fn(core, 'ListStylist::new')
@@ -220,6 +220,9 @@ def explore(S, K, want=('C04', 'C05', 'C06'), cats=None, between_items=False):
                 if c == 'space' and i + 1 < k and combo[i + 1] == 'space':
                     ok = False
             if between_items and (k < 2 or combo[0] != 'item' or combo[-1] != 'item'):
+                ok = False
+            # quick tier: the longest sequences only where they add something over the shorter ones - at least two comments
+            if focus_last and k == K and k >= 3 and sum(1 for c in combo if c in ('line', 'block')) < 2:
                 ok = False
             if ok:
                 yield combo
